@@ -14,7 +14,8 @@
 (*   ins     << [expr, vals] >>     outs  << [name, vals] >>                *)
 (*   anns    << annotation name >>                                          *)
 (*   rules   << [ins: << text >>, outs: << text >>, anns: << text >>] >>    *)
-(*   style   "tight" | "wide" | "multi" (cell widths, multi-line cells)     *)
+(*   style   "tight" | "wide" | "multi" | "merged" (cell widths, multi-line  *)
+(*           cells, equal neighbouring entries drawn as one cell)           *)
 (* Denotes(t) is what recognition must give back: same orientation, name,   *)
 (* policy and aggregator, same input expressions, output names, allowed     *)
 (* values, annotations and rule entries in the same order (texts compared   *)
